@@ -58,6 +58,9 @@ case("c14-freeform-spaces-pvalid", "break", ["C14"], [(CORE + "stringclasses.rs"
 case("c14-char-entry-masks", "break", ["C14"], [(CORE + "stringclasses.rs", "        get_derived_property_value(c as u32, self)\n    }\n\n    fn get_value_from_codepoint(&self, cp: u32) -> DerivedPropertyValue {\n        get_derived_property_value(cp, self)\n    }\n}\n\n/// Concrete class representing PRECIS `FreeformClass`", "        get_derived_property_value(c as u32 & 0xffff, self)\n    }\n\n    fn get_value_from_codepoint(&self, cp: u32) -> DerivedPropertyValue {\n        get_derived_property_value(cp, self)\n    }\n}\n\n/// Concrete class representing PRECIS `FreeformClass`")], "IdentifierClass::get_value_from_char masks the code point")
 case("c14-nfkd", "break", ["C14"], [(CORE + "common.rs", "cs != cs.nfkc().collect::<String>()", "cs != cs.nfkd().collect::<String>()")])
 case("c14-unassigned-drops-nonchar", "break", ["C14"], [(CORE + "common.rs", "!is_in_table(cp, &NONCHARACTER_CODE_POINT) && is_in_table(cp, &UNASSIGNED)", "is_in_table(cp, &UNASSIGNED)")])
+case("c14-shortcut-above-max", "break", ["C14"], [(CORE + "stringclasses.rs", "        get_derived_property_value(cp, self)\n    }\n}\n\n/// Concrete class representing PRECIS `FreeformClass`", "        if cp > 0x10ffff {\n            return DerivedPropertyValue::Unassigned;\n        }\n        get_derived_property_value(cp, self)\n    }\n}\n\n/// Concrete class representing PRECIS `FreeformClass`")], "values above U+10FFFF answered Unassigned by a shortcut (the list gives Disallowed)", expect_key=["entry-point|shortcut"])
+case("c14-shortcut-ascii-letters-digits", "keep", ["C14"], [(CORE + "stringclasses.rs", "        get_derived_property_value(cp, self)\n    }\n}\n\n/// Concrete class representing PRECIS `FreeformClass`", "        if (0x21..=0x7e).contains(&cp) {\n            return DerivedPropertyValue::PValid;\n        }\n        get_derived_property_value(cp, self)\n    }\n}\n\n/// Concrete class representing PRECIS `FreeformClass`")], "printable ASCII shortcut that agrees with the decision list")
+case("c14-shortcut-ascii-space-pvalid", "break", ["C14"], [(CORE + "stringclasses.rs", "        get_derived_property_value(cp, self)\n    }\n}\n\n/// Concrete class representing PRECIS `FreeformClass`", "        if (0x20..=0x7e).contains(&cp) {\n            return DerivedPropertyValue::PValid;\n        }\n        get_derived_property_value(cp, self)\n    }\n}\n\n/// Concrete class representing PRECIS `FreeformClass`")], "the shortcut's range includes U+0020, which IdentifierClass disallows", expect_key=["entry-point|shortcut"])
 case("c14-keep-early-return", "keep", ["C14"], [(CORE + "common.rs", """pub fn is_old_hangul_jamo(cp: u32) -> bool {
     is_in_table(cp, &LEADING_JAMO)
         || is_in_table(cp, &VOWEL_JAMO)
